@@ -110,6 +110,13 @@ def run(ctx):
     S = schemata()
     rng = ctx.rng('combos')
     cases = [[s] for s in S]
+    # a schema with classically negated atoms textually before a schema with a future head (sign bookkeeping across statements), and back
+    negs = [x for x in S if '-p' in x[1]]
+    futs = [x for x in S if "p'(" in x[1] or "p''(" in x[1]]
+    for a in negs:
+        for b in futs:
+            if a is not b and a[0] in ('always', 'dynamic') and b[0] in ('always', 'dynamic'):
+                cases.append([a, b])
     n = 150 if ctx.quick else 500
     for i in range(n):
         cases.append(rng.sample(S, rng.randint(2, 3)))
